@@ -116,6 +116,10 @@ XESC == <<34, 92, 120, 34>>    \* "\x"
 XLONE == <<34, 92, 117, 100, 56, 48, 48, 34>>    \* "\ud800"
 XLOW == <<34, 92, 117, 100, 99, 48, 48, 34>>    \* "\udc00"
 XPAIR == <<34, 92, 117, 100, 56, 51, 52, 92, 117, 100, 100, 49, 101, 34>>    \* "\ud834\udd1e"
+XPAIR2 == <<34, 92, 117, 100, 56, 52, 48, 92, 117, 100, 99, 48, 48, 34>>    \* "\ud840\udc00" = U+20000 (first code point beyond plane 1)
+XPAIR3 == <<34, 92, 117, 100, 98, 102, 102, 92, 117, 100, 102, 102, 102, 34>>    \* "\udbff\udfff" = U+10FFFF
+XPAIR4 == <<34, 92, 117, 68, 56, 55, 69, 92, 117, 68, 67, 48, 48, 34>>    \* "\uD87E\uDC00" = U+2F800 (upper-case hex digits)
+XPAIR5 == <<34, 92, 117, 100, 56, 51, 102, 92, 117, 100, 102, 102, 102, 34>>    \* "\ud83f\udfff" = U+1FFFF (last of plane 1)
 XREV == <<34, 92, 117, 100, 100, 49, 101, 92, 117, 100, 56, 51, 52, 34>>    \* "\udd1e\ud834"
 XU2 == <<34, 92, 117, 49, 50, 34>>    \* "\u12"
 XUG == <<34, 92, 117, 48, 48, 103, 103, 34>>    \* "\u00gg"
@@ -130,7 +134,7 @@ XCOM == <<47, 42, 42, 47>>    \* /**/
 XLC == <<47, 47>>    \* //
 XHASH == <<35>>    \* #
 XA == <<97>>    \* a
-JTok == <<LB, RB, LS, RS, CL, CM, SP, TAB, LF, CR, FF, NBSP, BOM, KA, KB, KAU, KE, N0, N1, NM15, NM0, NE, NH, NT, N10, TT, FF_, NL, SESC, X01, XMINUS, XPLUS1, X1DOT, XDOT1, X1E, X0X1, XBIG, XLONG, XTRUE, XNUL, XNAN, XINF, XSQ, XQ, XBS, XESC, XLONE, XLOW, XPAIR, XREV, XU2, XUG, XCTL, XNLS, XDEL, XC1, XLS, XNUL0, XFFFF, XCOM, XLC, XHASH, XA>>
+JTok == <<LB, RB, LS, RS, CL, CM, SP, TAB, LF, CR, FF, NBSP, BOM, KA, KB, KAU, KE, N0, N1, NM15, NM0, NE, NH, NT, N10, TT, FF_, NL, SESC, X01, XMINUS, XPLUS1, X1DOT, XDOT1, X1E, X0X1, XBIG, XLONG, XTRUE, XNUL, XNAN, XINF, XSQ, XQ, XBS, XESC, XLONE, XLOW, XPAIR, XPAIR2, XPAIR3, XPAIR4, XPAIR5, XREV, XU2, XUG, XCTL, XNLS, XDEL, XC1, XLS, XNUL0, XFFFF, XCOM, XLC, XHASH, XA>>
 
 JBase == <<
   <<LB, KA, CL, N0, CM, KB, CL, LS, N1, CM, TT, CM, NL, RS, RB>>,          \* {"a":0,"b":[1,true,null]}
@@ -195,6 +199,8 @@ B64DecU == SeqsUpTo(B64Text, IF Big THEN 5 ELSE 4)
            \cup {q \o <<81, 85, 74, 68>> : q \in B64Quad}                       \* a non-final quad
            \cup {Repl(<<81, 85, 74, 68, 82, 69, 86, 71>>, i, <<x>>) : i \in 1..8, x \in B64Other \cup B64Text}
            \cup {Ins(<<81, 85, 74, 68>>, i, <<x>>) : i \in 0..4, x \in B64Other}
+           \* characters beyond U+00FF whose LOW BYTE is an alphabet character (A a 0 + / = D): never base64
+           \cup {Repl(<<81, 85, 74, 68>>, i, <<x>>) : i \in 1..4, x \in {321, 353, 304, 299, 303, 317, 324, 8751, 128577}}
            \* non-ASCII characters whose UTF-8 length makes the BYTE length a multiple of four
            \* (the character count is not): 2+2, 1+1+2, 4, 3+1 bytes, alone and after a good quad
            \cup {pre \o x : pre \in {<<>>, <<81, 85, 74, 68>>},
